@@ -1378,6 +1378,9 @@ func (x *Exec) selectStmt(st *State, fr *Frame, i *ssa.Select) {
 				s1.Assume(Not(s1.closeOnly(ch.Term)))
 				v := freshVal(et, "recv$"+sanitize(ap))
 				s1.assumeValAllocated(v)
+				if x.recvNonNil(ap) && v.Term != nil {
+					s1.Assume(Neq(v.Term, IntLit(0)))
+				}
 				x.logRecv(s1, ap, v)
 				s1.Trace = append(s1.Trace, fmt.Sprintf("select#%d: recv %s value", k, ap))
 				build(s1, ci, ri, v, True)
